@@ -111,7 +111,15 @@ func tsDocs() []Doc {
 	en := teletext.BuildTS(teletext.Spec{Pages: []teletext.Page{
 		{Number: 888, AtMs: 1000, Rows: []teletext.RowText{{Row: 22, Text: "one"}}},
 	}})
-	return []Doc{{"ts-french-3", "ts", fr, true}, {"ts-german-serial-2", "ts", de, true}, {"ts-english-1", "ts", en, true}}
+	two := teletext.BuildTS(teletext.Spec{Pages: []teletext.Page{
+		{Number: 888, AtMs: 1000, Rows: []teletext.RowText{{Row: 22, Text: "english one"}}},
+		{Number: 889, AtMs: 1500, Nat: teletext.French, Rows: []teletext.RowText{{Row: 22, Text: "français un"}}},
+		{Number: 888, AtMs: 3000, Rows: []teletext.RowText{{Row: 22, Text: "english two"}}},
+		{Number: 889, AtMs: 3500, Nat: teletext.French, Rows: []teletext.RowText{{Row: 22, Text: "français deux"}}},
+		{Number: 888, AtMs: 5000},
+		{Number: 889, AtMs: 5500, Nat: teletext.French},
+	}})
+	return []Doc{{"ts-two-pages-888-889", "ts", two, true}, {"ts-french-3", "ts", fr, true}, {"ts-german-serial-2", "ts", de, true}, {"ts-english-1", "ts", en, true}}
 }
 
 const ssaV4Plus = "[Script Info]\nTitle: t\nScriptType: v4.00+\nWrapStyle: 0\nPlayResX: 640\nPlayResY: 480\nTimer: 100.0000\n\n[V4+ Styles]\nFormat: Name, Fontname, Fontsize, PrimaryColour, SecondaryColour, OutlineColour, BackColour, Bold, Italic, Underline, StrikeOut, ScaleX, ScaleY, Spacing, Angle, BorderStyle, Outline, Shadow, Alignment, MarginL, MarginR, MarginV, Encoding\nStyle: Default,Arial,20,&H00FFFFFF,&H000000FF,&H80000000,&H00000000,-1,0,0,0,100,100,0,0,1,2,2,2,10,10,10,1\n\n[Events]\nFormat: Layer, Start, End, Style, Name, MarginL, MarginR, MarginV, Effect, Text\nDialogue: 1,0:00:01.00,0:00:02.50,Default,Bob,0,0,0,,{\\an8}{\\i1}top{\\i0} plain\\Nsecond, line\nDialogue: 0,1:00:03.00,1:00:04.00,Default,,1,2,3,fx,last\n"
